@@ -8,4 +8,5 @@ def handle : Handler := fun a =>
   match MG.mSeparatedE a.graph (a.nats "X") (a.nats "Y") (a.nats "Z") with
   | .ok b => fmtBool b
   | .error e => "err:" ++ e
+def handlers : List (String × Handler) := [("msep", handle)]
 end C01
